@@ -286,6 +286,16 @@ def build_watch_native(ll, wd, entry, mod, gsyms, at_entry=False):
     return exe
 
 
+def _asan_sees(ll, wd, entry, vec):
+    """does the AddressSanitizer build of the slice report an error on this input vector?"""
+    try:
+        aexe = build_native(ll, wd, entry, asan=True)
+        nat = run_native(aexe, vec, wd, "valasan")
+    except Exception:
+        return False
+    return "AddressSanitizer" in nat.get("stderr", "") or "runtime error" in nat.get("stderr", "") or nat["rc"] < 0 or nat["rc"] in (1, 134, 139)
+
+
 def run_native(exe, inputs, wd, tag):
     """inputs: list of (name, value) -> parsed output dict"""
     f = os.path.join(wd, "in.%s.%d.txt" % (tag, os.getpid()))
@@ -523,6 +533,9 @@ def _run_one(o, mod, dem, ll, wd, tier, seed, R, log, irsym):
         if native_crashed or engine_memerr:
             # an invalid memory access on this vector: encoding and native build agree when both see it
             if native_crashed and engine_memerr:
+                agreed += 1
+            elif engine_memerr and not native_crashed and _asan_sees(ll, wd, o.entry, vec):
+                # an overflow by a few bytes does not crash the plain build; the sanitizer build of the same slice reports it
                 agreed += 1
             else:
                 mismatches.append({"inputs": vec, "why": "native rc=%s (crash: %s) vs engine path ends %s" % (nat["rc"], native_crashed, dict(rc.ended))})
